@@ -828,6 +828,24 @@ func ruleV8(c *Ctx, id string) {
 						key, why, ok = FuncName(ownerOf(fn))+"|"+msg, w2, true
 					}
 				}
+				if !ok && isPrivateHelper(fn) && len(staticSites[fn]) > 0 {
+					// a helper shared by several functions that each carried this panic with a justification
+					all, first := true, ""
+					for _, site := range staticSites[fn] {
+						k2 := FuncName(site.Parent()) + "|" + msg
+						if _, ok2 := panicJustified[k2]; !ok2 {
+							k2 = FuncName(ownerOf(site.Parent())) + "|" + msg
+						}
+						if _, ok2 := panicJustified[k2]; !ok2 {
+							all = false
+						} else if first == "" {
+							first = k2
+						}
+					}
+					if all {
+						key, why, ok = first, panicJustified[first], true
+					}
+				}
 				R.Check(ok, id, key, P.Pos(pn.Pos()), "an explicit panic reachable from a handler has a recorded invariant that excludes it", why, "new explicit panic reachable from a request handler: one request can kill the whole server process")
 			}
 		}
